@@ -69,6 +69,15 @@ claimed = {
    note=(TB + "Assumed: storage sizes are multiples of the page size and below 2^48; the akita page table is an external component (extern declarations); deviceIDByPAddr enters through a trusted contract "
          "(map iteration is not modelled). One genuine defect repaired (stale live-page entry after Free). Observed, not decided by a check: Driver.FreeMemory frees only the first page of a multi-page buffer."),
    design="5 (C10)", technique="deductive verification: WP-style VC generation over go/ssa + SMT (queue view of the free list, loop invariant with page-size case split)"),
+ "C17": dict(
+   text=("Under contract: interleavedBankSelector.Select (the bank depends only on the address and lies in [0, numBanks)); middleware.finalizeWrite (site obligations at the two Storage.Write calls: "
+         "an unmasked write hands over the request data, a masked write hands over exactly request bytes where the mask is set and the bytes just read elsewhere, for every length and mask); "
+         "middleware.dispatchPending carries the order-preservation site obligation 'a request enters the bank pipeline directly only when the bank's delay queue is empty', which fails on the current code "
+         "and is recorded as a known finding with a demonstration on the real component (a read overtakes an earlier write to the same address). "
+         "One-response-each, delay-queue/pending-list order preservation and the response contents against a flat memory are not decided."),
+   note=(TB + "akita ports, pipelines, buffers, storage and address converters are external components (extern declarations: frame-only, results unconstrained; Storage.Read returns a fresh slice). "
+         "Request interleavings over ticks are outside the technique; the finding's demonstration is run in the thorough tier."),
+   design="5 (C17)", technique="deductive verification: WP-style VC generation over go/ssa + SMT (site obligations at call sites, loop invariant with entry-state reference)"),
  "C11": dict(
    text=("memRangeOverlap (the predicate deciding whether a copy must flush dirty buffers) is proved equivalent to interval intersection for all "
          "non-empty ranges over the full uint64 domain. The splitting loops and completion bookkeeping are not yet under contract."),
